@@ -4,7 +4,7 @@ CONSTANTS
   MaxStructs = 1
   MaxEnums = 1
   MaxConsts = 0
-  MaxFuncs = 1
+  MaxFuncs = 0
   MaxParams = 1
 INIT Init
 NEXT Next
